@@ -427,6 +427,35 @@ impl WriterPool {
 /// where the executor currently is: (history number, op index, inside a build); read by the hang watchdog
 pub static PROGRESS: std::sync::Mutex<(i64, i64, bool)> = std::sync::Mutex::new((-1, -1, false));
 
+static PROGRESS_FILE: std::sync::Mutex<Option<std::fs::File>> = std::sync::Mutex::new(None);
+
+/// records where the executor is; when VERIF_PROGRESS_FILE is set the position is also written to that
+/// file (fixed-width line at offset 0), so that the parent can tell which operation killed the process
+pub fn mark_progress(hno: usize, k: usize, in_build: bool) {
+    *PROGRESS.lock().unwrap() = (hno as i64, k as i64, in_build);
+    // machinery self-test only: die like a stack overflow would, at a chosen operation
+    if let Ok(at) = std::env::var("VERIF_TEST_CRASH_AT") {
+        if at == format!("{hno}:{k}") && in_build {
+            PROGRESS_FILE.lock().unwrap().as_ref().map(|file| {
+                use std::os::unix::fs::FileExt;
+                let _ = file.write_at(format!("{:>12} {:>12}\n", hno, k).as_bytes(), 0);
+            });
+            std::process::abort();
+        }
+    }
+    let mut f = PROGRESS_FILE.lock().unwrap();
+    if f.is_none() {
+        if let Ok(p) = std::env::var("VERIF_PROGRESS_FILE") {
+            *f = std::fs::OpenOptions::new().create(true).write(true).truncate(true).open(p).ok();
+        }
+    }
+    if let Some(file) = f.as_ref() {
+        use std::os::unix::fs::FileExt;
+        let line = format!("{:>12} {:>12}\n", hno, k);
+        let _ = file.write_at(line.as_bytes(), 0);
+    }
+}
+
 pub struct BuildOutcome {
     pub res: Value,
     pub polls: u64,
@@ -562,7 +591,7 @@ pub fn run_history_with(
         if dead && !matches!(op, Op::Commit | Op::Abort) {
             continue;
         }
-        *PROGRESS.lock().unwrap() = (hno as i64, k as i64, true);
+        mark_progress(hno, k, true);
         match op {
             Op::Commit | Op::Abort => {
                 let w = wtxn.take().unwrap();
@@ -752,7 +781,7 @@ pub fn run_history_with(
                 let o = &o;
                 let fds_before = count_fds();
                 let tmp_before = o.tmpdir.as_ref().map(|t| count_dir(t)).unwrap_or(-1);
-                *PROGRESS.lock().unwrap() = (hno as i64, k as i64, true);
+                mark_progress(hno, k, true);
                 // hook H2: tree nodes and roots after each phase of the build (small histories only)
                 let phases: std::rc::Rc<std::cell::RefCell<Vec<(&'static str, Vec<u32>, RawDump)>>> = Default::default();
                 if h.sides {
@@ -764,7 +793,7 @@ pub fn run_history_with(
                     })));
                 }
                 let bo = do_build_with(&mut pool, w, db, idx, m, dim, o, h.max_polls.min(cfg.max_polls));
-                *PROGRESS.lock().unwrap() = (hno as i64, k as i64, false);
+                mark_progress(hno, k, false);
                 arroy::verif::set_phase_sink(None);
                 if h.sides && bo.res["c"] == "Ok" {
                     let ph: Vec<Value> = phases.borrow().iter().map(|(name, roots, d)| {
